@@ -82,6 +82,8 @@ def chunkings(rng, sig, limit):
                 nup = max(len(c) for c in pv.values()) + 1 + rng.randint(0, 2)
                 for v in list(pv):
                     pv["@" + v] = sorted(rng.sample(range(nup), len(pv[v]) + 1))
+            if rng.random() < 0.4:
+                pv["@@omit"] = [1]          # variables without new samples are left out of the update() call
             res.append(pv)
     return res
 
